@@ -26,6 +26,9 @@ def run(ctx):
     R.check_fixed(ctx, "C04.FIXED")
     R.check_parallel_eviction(ctx, "C04.CACHE")
 
+    # ---------------------------------------------------------------- C04.DSTOFF
+    R.check_walltime_loop(ctx, "C04.DSTOFF")
+
     # ---------------------------------------------------------------- C04.ARGS
     from ..rules_common import check_call_arguments
     check_call_arguments(ctx, "C04.ARGS", "C04")
